@@ -647,3 +647,18 @@ fires('m273-unknown-directive-accepted', ['C15'], [(UTIL, """        try:
 """, "")])
 fires('m274-analysis-window-key', ['C15'], [(CMDU, "        \"block_dur\": args_ns.analysis_window,\n", "        \"analysis_window\": args_ns.analysis_window,\n")], '-a no longer reaches the reader (AudioReader takes block_dur)')
 silent('t260-help-text', ['C15'], [(CMD, "            help=\"Minimum duration of a valid audio event in seconds. \"", "            help=\"Shortest duration of a valid audio event in seconds. \"")])
+
+# ------------------------------------------------------------------ tokenizer, second batch
+fires('m280-falsy-frame-ends-stream', ['C04', 'C01', 'C08'], [(CORE, "            if frame is None:\n                token = self._post_process()", "            if not frame:\n                token = self._post_process()")],
+      'a falsy frame (0, "", b"") is taken for end of stream: "for every frame type"')
+fires('m281-validator-inverted-binding', ['C03', 'C04'], [(CORE, "        elif isinstance(validator, DataValidator):\n            self._is_valid = validator.is_valid", "        elif isinstance(validator, DataValidator):\n            self._is_valid = validator.__class__.is_valid")])
+fires('m282-token-start-end-swapped', ['C01'], [(CORE, "            token = (data, start_frame, end_frame)\n", "            token = (data, end_frame, start_frame)\n")])
+fires('m283-validity-negated-in-noise', ['C04', 'C03'], [(CORE, """        elif self._state == self.NOISE:
+
+            if frame_is_valid:""", """        elif self._state == self.NOISE:
+
+            if not frame_is_valid:""")])
+fires('m284-min-length-off-by-one', ['C02', 'C04'], [(CORE, "        if (len(self._data) >= self.min_length) or (", "        if (len(self._data) > self.min_length) or (")])
+fires('m285-init-count-not-reset', ['C20', 'C03'], [(CORE, "                self._init_count = 1\n                self._silence_length = 0\n                self._start_frame = self._current_frame", "                self._init_count += 1\n                self._silence_length = 0\n                self._start_frame = self._current_frame")],
+      'the initial-phase counter accumulates across candidates and across runs')
+silent('t280-frame-none-eq', TOK + ['C08'], [(CORE, "            if frame is None:\n                token = self._post_process()", "            if frame is None or frame is None:\n                token = self._post_process()")])
